@@ -636,4 +636,159 @@ theorem countInit_lt (n : Nat) (aff : Nat → List Nat) (j : Nat) (hj : j < n) (
       unfold countInit at this
       split <;> omega
 
+
+/-! ## the reported PU number -/
+
+/-- the second phase only writes entries from `s.k` on -/
+theorem balPhase2_keeps (cfg : Cfg) (b : BSt) (cn cm ncores : Nat) (s : ASt) :
+    CtlP (fun s' => s.k ≤ s'.k ∧ ∀ i, i < s.k → s'.aff i = s.aff i ∧ s'.pn i = s.pn i)
+      (fun s' => s.k ≤ s'.k ∧ ∀ i, i < s.k → s'.aff i = s.aff i ∧ s'.pn i = s.pn i) True
+      (balPhase2 cfg b cn cm ncores s) := by
+  unfold balPhase2
+  refine forRange_inv _ (fun _ s' => s.k ≤ s'.k ∧ ∀ i, i < s.k → s'.aff i = s.aff i ∧ s'.pn i = s.pn i)
+    (fun s' => s.k ≤ s'.k ∧ ∀ i, i < s.k → s'.aff i = s.aff i ∧ s'.pn i = s.pn i) True ncores s ?_
+    ⟨Nat.le_refl _, fun _ _ => ⟨rfl, rfl⟩⟩
+  intro c s1 _ h1
+  have := forRange_inv (balAssign cfg b cn cm c)
+    (fun _ s' => s.k ≤ s'.k ∧ ∀ i, i < s.k → s'.aff i = s.aff i ∧ s'.pn i = s.pn i)
+    (fun s' => s.k ≤ s'.k ∧ ∀ i, i < s.k → s'.aff i = s.aff i ∧ s'.pn i = s.pn i) True (b.cnt c) s1 ?_ h1
+  · cases hr : forRange (b.cnt c) (balAssign cfg b cn cm c) s1 with
+    | run s' => rw [hr] at this; exact this
+    | fin s' => rw [hr] at this; exact this
+    | err => trivial
+  · intro j s2 _ h2
+    unfold balAssign
+    split
+    · trivial
+    · simp only [CtlP]
+      refine ⟨by omega, ?_⟩
+      intro i hi
+      have : i ≠ s2.k := by omega
+      simp only [upd, this, ↓reduceIte]
+      exact h2.2 i hi
+
+/-- some worker placed so far reports a PU it is not bound to -/
+def Misreported (s : ASt) : Prop := ∃ i, i < s.k ∧ s.aff i ≠ [s.pn i]
+
+theorem numaSockets_keeps_misreported (cfg : Cfg) : ∀ (shares : List Nat) (n : Nat) (s s' : ASt),
+    numaSockets cfg shares n s = .run s' → Misreported s → Misreported s' := by
+  intro shares
+  induction shares with
+  | nil => intro n s s' h hm; simp only [numaSockets, NCtl.run.injEq] at h; subst h; exact hm
+  | cons share rest ih =>
+    intro n s s' h hm
+    simp only [numaSockets] at h
+    cases hb : balPhase1 cfg (sockOff cfg.t n) share (socketCores cfg.t n) with
+    | none => rw [hb] at h; simp at h
+    | some b =>
+      rw [hb] at h
+      simp only at h
+      have hk := balPhase2_keeps cfg b (effUsed cfg) (effUsed cfg + sockOff cfg.t n)
+        (socketCores cfg.t n) s
+      cases hr : balPhase2 cfg b (effUsed cfg) (effUsed cfg + sockOff cfg.t n)
+          (socketCores cfg.t n) s with
+      | err => rw [hr] at h; simp at h
+      | fin s1 =>
+        rw [hr] at hk h
+        simp only at h
+        refine ih (n + 1) s1 s' h ?_
+        obtain ⟨i, hi, hne⟩ := hm
+        obtain ⟨e1, e2⟩ := hk.2 i hi
+        exact ⟨i, by have := hk.1; omega, by rw [e1, e2]; exact hne⟩
+      | run s1 =>
+        rw [hr] at hk h
+        simp only at h
+        refine ih (n + 1) s1 s' h ?_
+        obtain ⟨i, hi, hne⟩ := hm
+        obtain ⟨e1, e2⟩ := hk.2 i hi
+        exact ⟨i, by have := hk.1; omega, by rw [e1, e2]; exact hne⟩
+
+theorem base_lt_base (t : Topo) (hwf : WF t) {c d : Nat} (h : c < d) (hd : d < t.nc) :
+    base t c < base t d := by
+  have := base_add_lt t (hwf.pus c (by omega)) h
+  omega
+
+/-- if a socket with a positive core offset receives a thread on a well-shaped machine, some
+    worker reports a PU it is not bound to -/
+theorem numaSockets_misreports (cfg : Cfg) (hu : effUsed cfg = 0) (hwf : WF cfg.t) :
+    ∀ (shares : List Nat) (n : Nat) (s s' : ASt),
+    SocksOK cfg n shares.length → NInv cfg (base cfg.t (sockOff cfg.t n)) s →
+    numaSockets cfg shares n s = .run s' →
+    (∃ j, j < shares.length ∧ 0 < shares.getD j 0 ∧ 0 < sockOff cfg.t (n + j)) →
+    Misreported s' := by
+  intro shares
+  induction shares with
+  | nil => intro n s s' _ _ _ h; obtain ⟨j, hj, _⟩ := h; simp at hj
+  | cons share rest ih =>
+    intro n s s' hok hs h hex
+    have h' := h
+    simp only [numaSockets] at h
+    cases hb : balPhase1 cfg (sockOff cfg.t n) share (socketCores cfg.t n) with
+    | none => rw [hb] at h; simp at h
+    | some b =>
+      rw [hb] at h
+      simp only at h
+      have hH := hok n (Nat.le_refl _) (by simp)
+      obtain ⟨s1, e1, i1, k1, n1⟩ := numaSocket_step cfg hu (sockOff cfg.t n) (socketCores cfg.t n)
+        share hH b hb s hs
+      rw [e1] at h
+      simp only at h
+      rw [← sockOff_succ] at i1
+      have hok' : SocksOK cfg (n + 1) rest.length :=
+        fun m hm1 hm2 => hok m (by omega) (by simp only [List.length_cons]; omega)
+      obtain ⟨j, hj, hpos, hoff⟩ := hex
+      cases j with
+      | zero =>
+        simp only [List.getD_cons_zero, Nat.add_zero] at hpos hoff
+        -- the first worker of this socket is misreported
+        obtain ⟨c, x, hc, ha, hp⟩ := n1 s.k (Nat.le_refl _) (by omega)
+        obtain ⟨hcn, _⟩ := hH c hc
+        have hlt : base cfg.t c < base cfg.t (c + sockOff cfg.t n) :=
+          base_lt_base cfg.t hwf (by omega) hcn
+        have hm1 : Misreported s1 := ⟨s.k, by omega, by rw [ha, hp]; intro he; simp at he; omega⟩
+        exact numaSockets_keeps_misreported cfg rest (n + 1) s1 s' h hm1
+      | succ j' =>
+        refine ih (n + 1) s1 s' hok' i1 h ⟨j', by simpa using hj, by simpa using hpos, ?_⟩
+        have : n + 1 + j' = n + (j' + 1) := by omega
+        rw [this]; exact hoff
+
+
+theorem numaShares_sum_le (cfg : Cfg) (P : Nat) : ∀ (m n t2 : Nat), t2 ≤ cfg.n →
+    t2 + (numaShares cfg P m n t2).sum ≤ cfg.n := by
+  intro m
+  induction m with
+  | zero => intro n t2 h; simpa [numaShares] using h
+  | succ k ih =>
+    intro n t2 h
+    simp only [numaShares, List.sum_cons]
+    split
+    · have := ih (n + 1) (t2 + (cfg.n - t2)) (by omega)
+      omega
+    · rename_i hle
+      have := ih (n + 1) (t2 + roundDiv (cfg.n * socketPusInMask cfg (sockOff cfg.t n) (socketCores cfg.t n)) P) (by omega)
+      omega
+
+/-- **numa-balanced on a well-shaped machine misreports as soon as a socket with a positive core
+    offset receives a thread** -/
+theorem numa_misreport_spec (cfg : Cfg) (hu : effUsed cfg = 0) (hwf : WF cfg.t) (h : NumaShape cfg.t)
+    (ht : tooMany cfg = false) (j : Nat) (hj : j < numSockets cfg.t)
+    (hpos : 0 < (numaSharesOf cfg).getD j 0) (hoff : 0 < sockOff cfg.t j) :
+    ∃ aff pn, decodeNuma cfg = .ok aff pn ∧ ∃ i, i < cfg.n ∧ aff i ≠ [pn i] := by
+  have hh := numa_shape_no_hang cfg h ht
+  simp only [numaHangs, ht, Bool.not_false, Bool.true_and] at hh
+  have hlen : (numaSharesOf cfg).length = numSockets cfg.t := numaShares_length cfg _ _ _ _
+  have hok : SocksOK cfg 0 (numaSharesOf cfg).length := by rw [hlen]; exact socksOK_of_shape cfg h
+  obtain ⟨s', e, _, hk⟩ := numaSockets_ok cfg hu (numaSharesOf cfg) 0 ASt.init hok hh (init_NInv cfg _)
+  have hm := numaSockets_misreports cfg hu hwf (numaSharesOf cfg) 0 ASt.init s' hok (init_NInv cfg _) e
+    ⟨j, by rw [hlen]; exact hj, hpos, by simpa using hoff⟩
+  have hsum := numaShares_sum_le cfg (numaPusT cfg) (numSockets cfg.t) 0 0 (Nat.zero_le _)
+  obtain ⟨i, hi, hne⟩ := hm
+  unfold decodeNuma
+  simp only [ht, Bool.false_eq_true, ↓reduceIte]
+  unfold numaSharesOf at e hk hsum
+  rw [e]
+  refine ⟨_, _, rfl, i, ?_, hne⟩
+  simp only [ASt.init, Nat.zero_add] at hk hsum
+  omega
+
 end PikaVerif.Aff
